@@ -1286,10 +1286,17 @@ def follow_up_raw(sess, rng, tag):
         c = term_strings(state, pos, M, rng, want_ty=S.BOOL) if True else []
         by = dict(flat_lines(state))
         if c:
+            # the new gap is stated under the hypotheses in force at that place, as `cut` does it: they are taken
+            # from the next stated line of the same block (a gap without them is a state no method produces, and
+            # facts of the block could then be used for a goal that does not have their hypotheses)
             op = {'op': 'set_line', 'id': ids(pos), 'rule': 'sorry', 'prop': c[0]}
-            if nxt in by and by[nxt].th is not None:
+            while nxt in by and by[nxt].th is None:
+                nxt = nxt[:-1] + (nxt[-1] + 1,)
+            if nxt in by:
                 op['hyps_of'] = ids(nxt)
-            apply_op(sess, op, tag)
+                apply_op(sess, op, tag)
+            else:
+                sess.ctx.count('raw_gap_not_driven:no-stated-line-follows')
 
 
 def perturb(sess, rng, depth, recorded, tag, allow_search=True):
